@@ -214,6 +214,19 @@ def rule_r7(facts, rep, rid="C13-R7"):
         # assignments to the locals the end position is built from (`end = line; end_char = range.end - line_start`)
         params_ = set(lid for p_ in f.params for _n, lid in fb.pat_bindings(p_["pat"]))
         ids = set(y["id"] for y in fb.walk(e_end or {}) if y.get("k") == "path" and y.get("res") == "local") - params_
+        # ... transitively: locals the end is bound from (`let (end, end_char) = <block ending in located>`), and what is assigned to those
+        from vlib.q import _inl_value
+        for _round in range(4):
+            more = set()
+            for lid in list(ids):
+                b_ = c.binds.get(lid)
+                if b_ and b_[0] == "expr" and b_[1] is not None:
+                    for y in fb.walk(_inl_value(b_[1])):
+                        if y.get("k") == "path" and y.get("res") == "local" and y.get("id") not in params_:
+                            more.add(y["id"])
+            if more <= ids:
+                break
+            ids |= more
         for x in fb.walk(f.body):
             if x.get("k") in ("assign", "assignop") and x["l"].get("k") == "path" and x["l"].get("id") in ids:
                 m_end |= c.mentions(x["r"])
